@@ -1363,7 +1363,7 @@ impl Runner for ServiceRunner {
                 while inst.events.try_recv().is_ok() {
                     n += 1;
                 }
-                if n >= 30 {
+                if n >= 100 {
                     stats.bump("s.event-stream-overflowed");
                 }
                 out.push(format!("!OP sevresume {}", x));
@@ -2309,7 +2309,8 @@ fn gen_c17(rng: &mut Rng, ops: &mut Vec<String>, stats: &mut Stats) {
         // (two events per new session); it then catches up, and later changes must be announced again
         stats.bump("gen.c17.event-stream-overflow");
         ops.push("sevpause A".into());
-        for i in 0..rng.range(18, 24) {
+        // (the stream holds 100 events when discovered peers are reported, 30 otherwise)
+        for i in 0..rng.range(104, 110) {
             ops.push(format!("sest A k{}:1:{}:0 = i", 700 + i, contact_shape(mode, rng)));
         }
         ops.push("sevresume A".into());
